@@ -1382,6 +1382,33 @@ def many_sizers_worker(seeds, wid, extra):
     return res
 
 
+def same_basename_probe():
+    """Two independent inputs whose outputs would carry the same names: either
+    refused, or the outputs do not depend on the command-line order."""
+    fails = []
+    root = tempfile.mkdtemp(prefix="vfsbn-", dir=scratch_dir("det"))
+    try:
+        for d, text in (("d1", "struct A { u8 x; };\n"), ("d2", "struct B { u16 y; };\n")):
+            os.makedirs(os.path.join(root, d))
+            with open(os.path.join(root, d, "s.prophy"), "w") as f:
+                f.write(text)
+        snaps = []
+        for k, order in enumerate((("d1", "d2"), ("d2", "d1"))):
+            out = os.path.join(root, "o%d" % k)
+            os.makedirs(out)
+            rc, txt = CL.run_cli([os.path.join(root, d, "s.prophy") for d in order] + ["--python_out", out, "--cpp_out", out], cwd=root)
+            snaps.append((rc, _snapshot(out)))
+        if snaps[0][0] == 0 and snaps[1][0] == 0 and snaps[0][1] != snaps[1][1]:
+            fails.append({"check": "determinism", "what": "d1/s.prophy and d2/s.prophy (independent, same base name) compile "
+                          "silently to ONE set of outputs whose content follows the command-line order"})
+        elif snaps[0][0] != snaps[1][0]:
+            fails.append({"check": "determinism", "what": "same-named inputs: accepted in one command-line order (rc %r), "
+                          "refused in the other (rc %r)" % (snaps[0][0], snaps[1][0])})
+    finally:
+        shutil.rmtree(root, ignore_errors=True)
+    return fails
+
+
 def c20(tier, replay):
     rep = Report("C20", tier)
     rep.assumptions = [
@@ -1428,6 +1455,9 @@ def c20(tier, replay):
         rep.cov["independent_file_triples"] = rep.cov.get("independent_file_triples", 0) + r["n"]
         for f in r["fails"]:
             rep.violation(f, shadows.match("C20", f))
+    for f in same_basename_probe():
+        rep.violation(f, shadows.match("C20", f))
+    rep.count(2)
     # structs whose later part is counted by several sizers of an earlier part (patch file), under several hash seeds
     nms = 16 if tier == "quick" else 320
     seeds = [seed() * 100000 + k for k in range(nms)]
